@@ -176,6 +176,11 @@ func (tx *tableEx) walk(b, from *ssa.BasicBlock, row *PathRow, on map[*ssa.Basic
 			return
 		case *ssa.If:
 			ct := tx.term(x.Cond, row, 0)
+			if !wellFormed(ct) {
+				// a condition over values outside the finite domains: a free
+				// boolean atom (both outcomes are explored)
+				ct = tx.atom("cond:"+x.Cond.Name(), x.Cond, "bool", []int64{0, 1})
+			}
 			for si, s := range b.Succs {
 				r2 := tx.cloneRow(row)
 				r2.Guards = append(r2.Guards, Guard{ct, si == 0})
@@ -614,4 +619,16 @@ func (tx *tableEx) satisfied(r *PathRow, as Assign) (bool, string) {
 		}
 	}
 	return true, ""
+}
+
+func wellFormed(t *Term) bool {
+	if t == nil || t.Kind == "opaque" {
+		return false
+	}
+	for _, s := range t.Sub {
+		if !wellFormed(s) {
+			return false
+		}
+	}
+	return true
 }
